@@ -39,6 +39,8 @@ inline uint64_t num_graphs(int n) { return 1ull << (n * (n - 1) / 2); }
 
 inline uint64_t ipow(uint64_t b, int e) { uint64_t r = 1; while (e-- > 0) r *= b; return r; }
 
+inline uint64_t lcg_next(uint64_t &st) { st = st * 6364136223846793005ull + 1442695040888963407ull; return st >> 33; }
+
 // ---- named families ----
 inline EdgeList grid(int a, int b) {
     EdgeList g; g.n = a * b;
@@ -132,6 +134,12 @@ inline EdgeList family(const std::string &spec) {
     if (t[0] == "petersen") return petersen();
     if (t[0] == "cycle") return cycle_graph(I(1));
     if (t[0] == "brick") return brick(I(1), I(2));
+    if (t[0] == "lcg") {   // lcg:n:m:seed - n vertices, m distinct pseudo-random edges (deterministic)
+        EdgeList g; g.n = I(1); int m = std::min(I(2), g.n * (g.n - 1) / 2); uint64_t st = 0x243f6a8885a308d3ull ^ ((uint64_t) I(3) * 2654435761ull + (uint64_t) g.n * 97 + (uint64_t) m); lcg_next(st);
+        std::vector<char> used((size_t) g.n * g.n, 0);
+        while ((int) g.e.size() < m) { int a = (int) (lcg_next(st) % (uint64_t) g.n), b = (int) (lcg_next(st) % (uint64_t) g.n); if (a == b) continue; if (a > b) std::swap(a, b); if (used[(size_t) a * g.n + b]) continue; used[(size_t) a * g.n + b] = 1; g.e.push_back({a, b}); }
+        return g;
+    }
     if (t[0] == "subgrid") return subdivided(grid(I(1), I(2)));
     if (t[0] == "subcube") return subdivided(hypercube(I(1)));
     fprintf(stderr, "unknown family %s\n", spec.c_str()); exit(2);
@@ -279,13 +287,24 @@ inline std::vector<double> alphabet(const std::string &name) {
     if (name == "F4") return {0.1, 0.2, 0.3, 0.7};
     if (name == "M2") return {-2};      // deterministic pattern w_i = 1 + (i mod 2): one weighting per graph (for graphs too large for all weightings)
     if (name == "M3") return {-3};      // w_i = 1 + (i mod 3)
+    // fixed menus of pseudo-random weightings: "R9x4" = 4 weightings per graph with weights 1..9 from a deterministic LCG.
+    // A menu is a finite list enumerated completely on every run (a fixed corpus, not a sample drawn at run time).
+    if (name.size() >= 4 && name[0] == 'R' && name.find('x') != std::string::npos) { int k = atoi(name.c_str() + 1), cnt = atoi(name.c_str() + name.find('x') + 1); return {-1000.0 - k, (double) cnt}; }
     if (name == "P") return {1, 2, 4, 8, 16, 32, 64, 128, 256, 512, 1024, 2048, 4096, 8192, 16384, 32768, 65536, 131072, 262144, 524288, 1048576};
     fprintf(stderr, "unknown alphabet %s\n", name.c_str()); exit(2);
 }
 
+inline bool is_random_menu(const std::vector<double> &A) { return A.size() == 2 && A[0] <= -1000; }
+// number of weightings of an m-edge graph over alphabet A
+inline uint64_t num_weightings(const std::vector<double> &A, int m) {
+    if (is_random_menu(A)) return (uint64_t) A[1];
+    if (A.size() == 1 && A[0] < 0) return 1;
+    return ipow(A.size(), m);
+}
 // weighting number `idx` (base |A|, edge 0 = least significant digit)
 inline void weighting(const std::vector<double> &A, int m, uint64_t idx, std::vector<double> &w) {
     w.resize(m);
+    if (is_random_menu(A)) { int k = (int) (-A[0] - 1000); uint64_t st = 0x9e3779b97f4a7c15ull ^ (idx * 1000003ull + (uint64_t) m * 7919ull); lcg_next(st); for (int i = 0; i < m; ++i) w[i] = 1 + (double) (lcg_next(st) % (uint64_t) k); return; }
     if (A.size() == 1 && A[0] < 0) { int k = (int) -A[0]; for (int i = 0; i < m; ++i) w[i] = 1 + i % k; return; }
     for (int i = 0; i < m; ++i) { w[i] = A[idx % A.size()]; idx /= A.size(); }
 }
